@@ -10,6 +10,16 @@ CHECKS = {
     category="model_checking", design_ref="4 C12",
     text="TLC checks Covers/AllAttrs/Antichain/IsTree/RunningIntersection/Progress/DepRespect for every labelled graph on <=4 (thorough 5) attributes x every elimination order x every max-weight tree x every message schedule, plus greedy mode with sizes in {1,2,3} and a hyper-clique catalogue. Every enumerated (structure, order) is executed on the real JunctionTree (permuted/duplicated/nested spellings) and compared with the spec's maximal cliques and admissible-tree set; the code's own None/int modes on enumerated and random 5-8 attribute clique sets are validated event by event (Eliminate with greedy cost-minimality, Tree validity, Send dependency rule) by the trace spec.",
     note="Trusts TLC, the JSON bridge and networkx being observed not modelled (any max-weight tree allowed). int mode: validity of the chosen order only."),
+ "C01": dict(
+    technique="TLA+ integer sum-product model (spec/bp/BeliefProp.tla) model-checked by TLC over every message schedule/tree/zero pattern; behaviours replayed on GraphicalModel.belief_propagation (message_order overwritten, hook H1); H1 traces validated by spec/bp/BPTrace.tla",
+    category="model_checking", design_ref="4 C01",
+    text="TLC checks Exact/SameZ/AbsorbOK/DivOK/MsgMeaning/BeliefMeaning in the integer semiring (0 = -inf, 0/0 := 0) for a catalogue of cyclic, disconnected, nested, duplicated and permuted clique structures x every junction tree the implementation builds over all elimination orders x zero patterns x EVERY dependency-respecting message schedule. Each completed behaviour is replayed on the real code with the schedule imposed, potentials ln w + K (K up to +-5000, weights^40, cancelling +-1500 spreads), comparing every message and the final marginals/logZ with the spec's integers; the code's own schedules on random 3-7 attribute models are validated message by message by the trace spec.",
+    note="Trusts TLC, the JSON bridge, numpy backend only; instances bounded to Z < 2^30; float comparison 1e-9 relative."),
+ "C14": dict(
+    technique="TLA+ transcription of the factor algebra (spec/factor/FactorAlgebra.tla: result layout + by-name addressing map per operation; FactorStore.tla: in-place sequences) enumerated by TLC, one implementation test per transition",
+    category="model_checking", design_ref="4 C14",
+    text="TLC enumerates every ordered attribute-subset pair (sizes 2,3,1; thorough adds a 4th attribute) x 22 operations x every argument and checks the addressing laws (layout, merge order, partition, requested order, bijection); every transition is executed on real Factor/CliqueVector objects with distinct cell values and compared cell by cell and axis by axis (== for integer operations); all in-place sequences of length <= 2 (thorough 3) on two objects are replayed step by step against the integer store model.",
+    note="Scalar functions (exp, log, logaddexp, logsumexp) are evaluated by the driver with math/numpy; the spec decides which cells meet. Views returned by transpose/condition/expand are out of scope for in-place checks."),
 }
 
 NOT_YET = "check not built yet (work in progress, see DESIGN.md section 8 build order)"
